@@ -203,3 +203,74 @@ Proof. reflexivity. Qed.
 Print Assumptions C27_frame.
 Print Assumptions C27_inputs_unchanged.
 Print Assumptions C27_alias_write_mutates.
+
+(* ------------------------------------------------------------------------------------------- *)
+(* The constructor protocol.  Python evaluates C(args) as
+       obj = C.__new__(C, args);  if isinstance(obj, C): obj.__init__(args)
+   Many UFL classes simplify in __new__ by returning an EXISTING object.  If that object is an instance
+   of C, __init__ runs again on it.  A GUARDED __init__ (first statement: return if already initialised;
+   the flag is False after allocation and set at the end of __init__) leaves it alone; an unguarded one
+   overwrites its operands with the new arguments (typically the object itself: a cycle). *)
+Section Protocol.
+  Record pobj := { pcls : nat; pinit : bool; pops : list nat }.
+  Definition pheap := list pobj.
+
+  Inductive newres := NFresh | NExisting (a : nat).
+
+  Fixpoint pset (h : pheap) (a : nat) (o : pobj) : pheap :=
+    match h, a with
+    | [], _ => []
+    | _ :: t, 0 => o :: t
+    | x :: t, S a' => x :: pset t a' o
+    end.
+
+  Definition run_init (guarded : bool) (h : pheap) (a : nat) (ops : list nat) : pheap :=
+    match nth_error h a with
+    | None => h
+    | Some o => if guarded && pinit o then h
+                else pset h a {| pcls := pcls o; pinit := true; pops := ops |}
+    end.
+
+  Definition construct (guarded : bool) (C : nat) (r : newres) (ops : list nat) (h : pheap) : pheap :=
+    match r with
+    | NFresh => h ++ [{| pcls := C; pinit := true; pops := ops |}]
+    | NExisting a =>
+        match nth_error h a with
+        | Some o => if pcls o =? C then run_init guarded h a ops else h
+        | None => h
+        end
+    end.
+
+  Definition all_init (h : pheap) : Prop := forall a o, nth_error h a = Some o -> pinit o = true.
+
+  (* every object that exists before the call is exactly as it was, for every class, every result of
+     __new__, every argument list, every heap of initialised objects *)
+  Theorem C27_guarded_ctor_pure : forall C r ops h, all_init h ->
+    forall a o, nth_error h a = Some o -> nth_error (construct true C r ops h) a = Some o.
+  Proof.
+    intros C r ops h I a o E. destruct r as [|b]; simpl.
+    - rewrite nth_error_app1; auto. apply nth_error_Some. congruence.
+    - destruct (nth_error h b) as [ob|] eqn:Eb; auto.
+      destruct (pcls ob =? C); auto. unfold run_init. rewrite Eb. simpl.
+      rewrite (I b ob Eb). exact E.
+  Qed.
+
+  (* without the guard the returned instance is overwritten *)
+  Theorem C27_unguarded_ctor_mutates :
+    exists C ops h a o, all_init h /\ nth_error h a = Some o /\
+      nth_error (construct false C (NExisting a) ops h) a <> Some o.
+  Proof.
+    exists 7, [0], [{| pcls := 7; pinit := true; pops := [5] |}], 0, {| pcls := 7; pinit := true; pops := [5] |}.
+    split; [|split; [reflexivity | simpl; discriminate]].
+    intros a o E. destruct a as [|[|a]]; simpl in E; inversion E; reflexivity.
+  Qed.
+
+  (* what the T1 table of a class says: __new__ may return an existing object / __init__ is guarded /
+     __init__ writes operands or attributes *)
+  Record centry := { returns_existing : bool; guarded_init : bool; init_writes : bool }.
+  Definition protocol_safe (e : centry) : bool :=
+    negb (returns_existing e) || guarded_init e || negb (init_writes e).
+End Protocol.
+
+Print Assumptions C27_guarded_ctor_pure.
+Print Assumptions C27_unguarded_ctor_mutates.
